@@ -54,7 +54,24 @@ def run(ctx):
                 if is_call(s, "str>::rfind") and const_str(call_args(s)[1]) == SEP:
                     return s, False
                 if is_call(s, "::rposition"):
-                    return s, True
+                    # buf.windows(len(SEP)).rposition(|w| w == SEP): the windows are SEP-sized and the predicate is equality with SEP itself
+                    it = strip_refs(call_args(s)[0])
+                    for _ in range(4):
+                        if isinstance(it, tuple) and it and it[0] == "loc" and len(it) > 2:
+                            it = strip_refs(it[2])
+                    clo = strip_refs(call_args(s)[1]) if len(call_args(s)) > 1 else None
+                    okw = is_call(it, "[T]>::windows") and const_int(call_args(it)[1]) == len(SEP)
+                    okp = False
+                    if isinstance(clo, tuple) and clo[:2] == ("agg", "closure"):
+                        rp = ret_paths(ctx.paths(clo[2]) or [])
+                        if len(rp) == 1:
+                            q = eq_call(rp[0].end[1])
+                            if q is not None and not q[0]:
+                                a_, b_ = deval(q[1]), deval(q[2])
+                                okp = (a_ == ("param", 2) and const_bytes(b_) == SEP) or (b_ == ("param", 2) and const_bytes(a_) == SEP)
+                    if okw and okp:
+                        return s, True
+                    continue
                 if is_call(s, "memchr::memmem::rfind", "memrchr"):
                     return s, True
             return None, None
